@@ -755,6 +755,9 @@ type Exec struct {
 	MaxSteps  int
 	// NoInitTables: do not read package-level variables as what their initialiser left in them
 	NoInitTables bool
+	// Bounds: a constant index outside a slice of known length or an array ends the path in a panic
+	// (off by default: lengths the rules leave unknown are not checked either way)
+	Bounds bool
 	MaxDepth  int
 	// MaxRecursion is how many activations of one function may be on the abstract stack
 	// beyond the first (0: a recursive call stays opaque).
@@ -1070,7 +1073,11 @@ func (ex *Exec) run(s *astate) ([]*astate, *AOutcome, error) {
 				rets, s.retVals = s.retVals, nil // merged by if-conversion
 			} else {
 				for _, r := range x.Results {
-					rets = append(rets, ex.val(s, fr, r))
+					rv := ex.val(s, fr, r)
+					if len(s.frames) > 1 && rv.K == AInt && len(rv.Bits) == 1 && rv.Bits[0].Kind == BMix {
+						rv = ex.nameComparison(s, fr, r, rv)
+					}
+					rets = append(rets, rv)
 				}
 				if s.stopRet && len(s.frames) == s.stopDepth {
 					s.retVals = rets
@@ -1101,6 +1108,29 @@ func (ex *Exec) run(s *astate) ([]*astate, *AOutcome, error) {
 			if s.stopAt == nil && !s.stopRet {
 				if fs := ex.forkTableIndex(s, fr, x); len(fs) > 0 {
 					return fs, nil, nil
+				}
+			}
+			if ex.Bounds {
+				// a constant index outside a slice of known length (or an array) panics
+				if k, isK := ex.val(s, fr, x.Index).ConstVal(); isK {
+					n := -1
+					switch b := ex.val(s, fr, x.X); {
+					case b.K == ASlice && b.Len >= 0:
+						n = b.Len
+					case b.K == APtr:
+						if pt, ok := x.X.Type().Underlying().(*types.Pointer); ok {
+							if at, ok := pt.Elem().Underlying().(*types.Array); ok {
+								n = int(at.Len())
+							}
+						}
+					}
+					ki := int64(k)
+					if w := widthOf(x.Index.Type()); w > 0 && w < 64 && isSigned(x.Index.Type()) {
+						ki = signExt(k, w)
+					}
+					if n >= 0 && (ki < 0 || ki >= int64(n)) {
+						return nil, &AOutcome{Conds: append(s.conds, fmt.Sprintf("index %d out of range [0,%d) in %s", ki, n, fr.fn.Name())), Mem: s.mem, Trace: s.trace, Panicked: true, Facts: s.facts, SFacts: s.sfacts, Excl: s.excl, Nils: s.nils, Rels: s.rels}, nil
+					}
 				}
 			}
 			fr.env[x] = ex.eval(s, fr, x)
@@ -1196,6 +1226,16 @@ func (ex *Exec) refine(t, f *astate, fr *aframe, cond ssa.Value) {
 	}
 	bo, ok := cond.(*ssa.BinOp)
 	if !ok {
+		// a comparison made in a callee and returned as a boolean
+		if cv := ex.val(t, t.frames[len(t.frames)-1], cond); cv.K == AInt && len(cv.Bits) == 1 && cv.Bits[0].Kind == BSrc && cv.Bits[0].More == "" {
+			if ci, isCmp := cmpRegistry[cv.Bits[0].Src]; isCmp {
+				if cv.Bits[0].Neg {
+					ex.refineCmp(f, t, ci.l, ci.r, ci.op, ci.signed)
+				} else {
+					ex.refineCmp(t, f, ci.l, ci.r, ci.op, ci.signed)
+				}
+			}
+		}
 		// a boolean that is a source of its own (the result of a summarised predicate)
 		if cv := ex.val(t, t.frames[len(t.frames)-1], cond); cv.K == AInt && len(cv.Bits) == 1 && cv.Bits[0].Kind == BSrc && cv.Bits[0].More == "" && srcWidths[cv.Bits[0].Src] == 1 {
 			tv, fv := uint64(1), uint64(0)
@@ -1239,7 +1279,22 @@ func (ex *Exec) refine(t, f *astate, fr *aframe, cond ssa.Value) {
 	if l.K != AInt || r.K != AInt {
 		return
 	}
-	op := bo.Op
+	ex.refineCmp(t, f, l, r, bo.Op, isSigned(bo.X.Type()))
+}
+
+// cmpInfo: what a named comparison bit ("cmp:(L op R)") stands for - a comparison computed in a callee
+// and handed back as a boolean; branching on the bit refines the path like branching on the comparison.
+type cmpInfo struct {
+	l, r   AVal
+	op     token.Token
+	signed bool
+}
+
+var cmpRegistry = map[string]cmpInfo{}
+
+// refineCmp records on t (comparison true) and f (false) what l op r says about the sources.
+func (ex *Exec) refineCmp(t, f *astate, l, r AVal, bop token.Token, signedType bool) {
+	op := bop
 	// (x & mask) == 0 / != 0 with a contiguous mask: the field src<hi:lo> is 0 / at least 1
 	if op == token.EQL || op == token.NEQ {
 		a, b := l.Bits, r.Bits
@@ -1382,12 +1437,12 @@ func (ex *Exec) refine(t, f *astate, fr *aframe, cond ssa.Value) {
 		}
 	}
 	w := srcWidths[src]
-	if isSigned(bo.X.Type()) && w == len(l.Bits) {
+	if signedType && w == len(l.Bits) {
 		// a signed whole source: signed ranges
-		ex.refineSigned(t, f, bo.Op, l.Bits, r.Bits)
+		ex.refineSigned(t, f, bop, l.Bits, r.Bits)
 		return
 	}
-	if isSigned(bo.X.Type()) && signExt(k, len(l.Bits)) < 0 {
+	if signedType && signExt(k, len(l.Bits)) < 0 {
 		return
 	}
 	full := uint64(1)<<uint(w) - 1
@@ -3870,4 +3925,42 @@ func (ex *Exec) readerIntrinsic(s *astate, name string, args []AVal, x *ssa.Call
 		}
 	}
 	return AVal{}, false
+}
+
+// nameComparison: a boolean about to be returned to a caller that is an undecided comparison of
+// nameable values becomes a named bit ("cmp:(L op R)"), so that the caller's branch on it can refine
+// the path (a predicate helper `return t == 2 || t == 4` then forks like the inline test).
+func (ex *Exec) nameComparison(s *astate, fr *aframe, v ssa.Value, dflt AVal) AVal {
+	for i := 0; i < 4; i++ {
+		ph, isPhi := v.(*ssa.Phi)
+		if !isPhi {
+			break
+		}
+		src, has := fr.phiSrc[ph]
+		if !has {
+			return dflt
+		}
+		v = src
+	}
+	neg := false
+	if u, isU := v.(*ssa.UnOp); isU && u.Op == token.NOT {
+		v, neg = u.X, true
+	}
+	bo, ok := v.(*ssa.BinOp)
+	if !ok {
+		return dflt
+	}
+	switch bo.Op {
+	case token.EQL, token.NEQ, token.LSS, token.LEQ, token.GTR, token.GEQ:
+	default:
+		return dflt
+	}
+	l, r := ex.val(s, fr, bo.X), ex.val(s, fr, bo.Y)
+	if l.K != AInt || r.K != AInt || hasMixBits(l.Bits) || hasMixBits(r.Bits) {
+		return dflt
+	}
+	name := fmt.Sprintf("cmp:(%s%s%s)", NameBits(l.Bits), bo.Op, NameBits(r.Bits))
+	cmpRegistry[name] = cmpInfo{l, r, bo.Op, isSigned(bo.X.Type())}
+	srcWidths[name] = 1
+	return AVal{K: AInt, Bits: BitVec{Bit{Kind: BSrc, Src: name, Idx: 0, Neg: neg}}}
 }
